@@ -8,8 +8,12 @@ git -C /repo worktree add -q --detach "$WT" HEAD || exit 2
 trap 'git -C /repo worktree remove --force "$WT" 2>/dev/null; rm -rf "$OUT"' EXIT
 if ! git -C "$WT" apply --check "$P" 2>/dev/null; then echo "PATCH DOES NOT APPLY: $P"; exit 3; fi
 git -C "$WT" apply "$P"
+# the checks run from a snapshot of /verif's last commit, so that edits in progress do not disturb them
+SNAP=$(mktemp -d /var/tmp/seedverif.XXXXXX)
+git -C /verif archive HEAD | tar -x -C "$SNAP"
+trap 'git -C /repo worktree remove --force "$WT" 2>/dev/null; rm -rf "$OUT" "$SNAP"' EXIT
 for id in "$@"; do
-  out=$(cd /verif && VERIF_REPO="$WT" VERIF_OUT_DIR="$OUT" VERIF_NO_MINIMISE=1 VERIF_SEED=${VERIF_SEED:-7} ./check $id ${TIER:-quick} 2>&1); code=$?
+  out=$(cd "$SNAP" && VERIF_REPO="$WT" VERIF_OUT_DIR="$OUT" VERIF_NO_MINIMISE=1 VERIF_SEED=${VERIF_SEED:-7} ./check $id ${TIER:-quick} 2>&1); code=$?
   echo "[$id exit=$code] $(echo "$out" | grep -c '^VIOLATION') violation line(s)"
   echo "$out" | grep "violation signature\|HARNESS" | cut -c1-300 | head -4
 done
